@@ -40,21 +40,7 @@ def run(prog, rep):
             rep.touch(f)
             bad = {}
             if fam == 'timestamp':
-                tsbad = {}
-                for cell, seqs in sorted(per.items()):
-                    check_timestamp_cell(rep, kind, f, cell, seqs, tsbad)
-                for label, lst in tsbad.items():
-                    rep.finding('R6.1', '%s|WriteValue(CBinTimestamp)|%s' % (kind, label), f.loc(),
-                                '%s writer: timestamps with seconds/nanoseconds in %s must be written as %s but the writer emits %s'
-                                % (kind, ', '.join('sec %d..%d ns %d..%d' % (c[0][0], c[0][1], c[1][0], c[1][1]) for c, _ in lst[:4]), label, lst[0][1]),
-                                {'cells': [str(c) for c, _ in lst], 'emitted': str(lst[0][1])}, func=f.id, count=len(lst))
-                check_timestamp96_order(rep, kind, f, per)
-                native = sorted(set(str(a[1]) for seqs in per.values() for s_ in seqs for a in s_ if a[0] == 'EMITRAW' and str(a[1]).startswith('native:')))
-                if native:
-                    rep.finding('R6.4', '%s|%s(%s)' % (kind, name, pt), f.loc(),
-                                '%s writer %s(%s) appends a multi-byte scalar in native byte order' % (kind, name, pt), {'emitted': str(native)}, func=f.id)
-                else:
-                    rep.ok('R6.4', '%s|%s(%s)|timestamp cells' % (kind, name, pt))
+                check_timestamp_writer(rep, kind, name, pt, f, per, 'R6.1', 'R6.4')
                 continue
             for cell, seqs in sorted(per.items()):
                 site = '%s|%s(%s)|%s' % (kind, name, pt, cell_str(cell))
@@ -115,7 +101,53 @@ def run(prog, rep):
     check_count_routes(prog, rep)
 
 
-def check_timestamp_cell(rep, kind, f, cell, seqs, bad):
+
+def check_timestamp_writer(rep, kind, name, pt, f, per, rule, rule_be, order=True):
+    """WriteValue(CBinTimestamp) of one writer over the (seconds, nanoseconds) cells: layout per the MessagePack timestamp extension"""
+    tsbad = {}
+    for cell, seqs in sorted(per.items()):
+        check_timestamp_cell(rep, kind, f, cell, seqs, tsbad, rule)
+    for label, lst in tsbad.items():
+        rep.finding(rule, '%s|WriteValue(CBinTimestamp)|%s' % (kind, label), f.loc(),
+                    '%s writer: timestamps with seconds/nanoseconds in %s must be written as %s but the writer emits %s'
+                    % (kind, ', '.join('sec %d..%d ns %d..%d' % (c[0][0], c[0][1], c[1][0], c[1][1]) for c, _ in lst[:4]), label, lst[0][1]),
+                    {'cells': [str(c) for c, _ in lst], 'emitted': str(lst[0][1])}, func=f.id, count=len(lst))
+    if order:
+        check_timestamp96_order(rep, kind, f, per, rule)
+    native = sorted(set(str(a[1]) for seqs in per.values() for s_ in seqs for a in s_ if a[0] == 'EMITRAW' and str(a[1]).startswith('native:')))
+    if native:
+        rep.finding(rule_be, '%s|%s(%s)' % (kind, name, pt), f.loc(),
+                    '%s writer %s(%s) appends a multi-byte scalar in native byte order' % (kind, name, pt), {'emitted': str(native)}, func=f.id)
+    else:
+        rep.ok(rule_be, '%s|%s(%s)|timestamp cells' % (kind, name, pt))
+
+
+def check_timestamp_writers(prog, rep, rule):
+    """shared with C14: both writers, timestamp overload only"""
+    T = W.writer_tables(prog)
+    n = 0
+    for kind in sorted(T):
+        for (name, pt), (f, fam, per) in sorted(T[kind].items(), key=lambda kv: str(kv[0])):
+            if fam == 'timestamp':
+                rep.touch(f)
+                check_timestamp_writer(rep, kind, name, pt, f, per, rule, rule, order=False)
+                n += 1
+    if n != 2:
+        raise AnalysisBroken('%s: expected the timestamp overload of both MsgPack writers, found %d' % (rule, n))
+    # order of the two fields in the 96-bit layout as the writers emit it (agreement is R6.2's business)
+    hdr = (('EMIT1', 'const', 0xc7), ('EMIT1', 'const', 12), ('EMIT1', 'const', 0xff))
+    orders = set()
+    for kind in sorted(T):
+        for (name, pt), (f, fam, per) in T[kind].items():
+            if fam == 'timestamp':
+                for seqs in per.values():
+                    for s_ in seqs:
+                        if s_[:3] == hdr:
+                            orders.add(tuple(a[1] for a in s_[3:] if a[0] == 'EMITBE'))
+    return orders
+
+
+def check_timestamp_cell(rep, kind, f, cell, seqs, bad, rule='R6.1'):
     """spec 'Timestamp extension type': ts32 (d6 ff + BE32 seconds) iff nanoseconds == 0 and 0 <= seconds < 2^32;
     ts64 (d7 ff + BE64 (nanoseconds << 34 | seconds)) iff 0 <= seconds < 2^34 otherwise; else ts96 (c7 0c ff + 12 bytes)."""
     (slo, shi), (nlo, nhi) = cell
@@ -137,30 +169,30 @@ def check_timestamp_cell(rep, kind, f, cell, seqs, bad):
         ok = len(got) == 1 and all(s[:3] == hdr and sorted((a[1], a[2]) for a in s[3:] if a[0] == 'EMITBE') == [('NS', 4), ('SEC', 8)]
                                    and len(s) == 5 for s in got)
         if ok:
-            rep.ok('R6.1', site, sample={'writer': kind, 'cell': site.split('|')[-1], 'layout': label})
+            rep.ok(rule, site, sample={'writer': kind, 'cell': site.split('|')[-1], 'layout': label})
         else:
             bad.setdefault(label, []).append((cell, sorted(got)))
         return
     else:
         raise AnalysisBroken('timestamp cell %r straddles a spec threshold' % (cell,))
     if len(got) == 1 and got <= want:
-        rep.ok('R6.1', site, sample={'writer': kind, 'cell': site.split('|')[-1], 'layout': label} if slo == (1 << 32) else None)
+        rep.ok(rule, site, sample={'writer': kind, 'cell': site.split('|')[-1], 'layout': label} if slo == (1 << 32) else None)
     else:
         bad.setdefault(label, []).append((cell, sorted(got)))
 
 
-def check_timestamp96_order(rep, kind, f, per):
+def check_timestamp96_order(rep, kind, f, per, rule='R6.1'):
     hdr = (('EMIT1', 'const', 0xc7), ('EMIT1', 'const', 12), ('EMIT1', 'const', 0xff))
     s96 = sorted(set(s for seqs in per.values() for s in seqs if s[:3] == hdr))
     site = '%s|WriteValue(CBinTimestamp)|timestamp 96' % kind
     if not s96:
-        rep.finding('R6.1', site + '|missing', f.loc(), '%s writer: no timestamp 96 (c7 0c ff) path' % kind, func=f.id)
+        rep.finding(rule, site + '|missing', f.loc(), '%s writer: no timestamp 96 (c7 0c ff) path' % kind, func=f.id)
         return
     pay = [(a[1], a[2]) for a in s96[0][3:] if a[0] == 'EMITBE']
     if pay == [('NS', 4), ('SEC', 8)]:
-        rep.ok('R6.1', site + '|field order', sample={'writer': kind, 'layout': 'timestamp 96', 'fields': pay})
+        rep.ok(rule, site + '|field order', sample={'writer': kind, 'layout': 'timestamp 96', 'fields': pay})
     else:
-        rep.finding('R6.1', site + '|field order', f.loc(),
+        rep.finding(rule, site + '|field order', f.loc(),
                     '%s writer: timestamp 96 payload is %s; the specification requires 32-bit nanoseconds first, then 64-bit seconds' % (kind, pay),
                     {'emitted': str(s96[0])}, func=f.id)
 
